@@ -11,6 +11,8 @@ CHECKS = {
     "C28": "aggregator",
     "C29": "aggregator",
     "C30": "aggregator",
+    "C37": "activeusers",
+    "C38": "engineids",
 }
 
 MC = "model_checking"
@@ -89,4 +91,17 @@ CLAIMS = {
                 "reordered run-started / run-stopped and disconnects; row counts per run id compared by AggregatorTrace.tla",
             "Same exploration as C28; after every step the number of RecentRun and PlotLog rows per run id must equal the spec's "
             "(never more than one).", "As C28.", "6.7, 7 C30"),
+    "C37": (MC, "TLA+ spec ActiveUsers.tla (invariant ActiveOnlyWhileLive) checked by TLC; every edge of its state graph and random "
+                "histories replayed on the real FromFrontend wired to the real FrontendPublisher; ActiveUsersTrace.tla compares "
+                "the active-user lists after every event",
+            "All histories (quick 6, thorough 8 events) of subscribe / register / unregister / connection close for 2 users, 3 "
+            "single-use connections and 2 units; the subscribe and disconnect hooks are driven through the real pub/sub notifier "
+            "and FrontendPublisher.on_disconnect.",
+            "No real websocket; a user registers only while they have a live connection.", "6.7, 7 C37"),
+    "C38": (EXP, "TLA+ spec EngineIds.tla (IdsInjective, NoTakeover; TLC) and EngineIdsTrace.tla judging the ids the real "
+                 "create_engine_id hands out for every enumerated name pair and the register/connect histories on the real aggregator",
+            "Every pair of computer / UOD names of length <= 2 over {a, _, /, %, space} plus percent-escape look-alikes is given "
+            "to the real id function; TLC checks injectivity and classifies a collision by whether the separator explains it; "
+            "random register / connect / disconnect histories over colliding and distinct engines check the takeover rule.",
+            "Thin oracle (equality of ids); level exploration.", "7 C38"),
 }
